@@ -170,8 +170,8 @@ func c15(e *Env) {
 					base := z.Args[0]
 					isLocalMap := false
 					base.Walk(func(w *core.Sym) bool {
-						if w.Op == "call" && w.Name == "makemap" {
-							isLocalMap = true
+						if w.Op == "call" && w.Name == "makemap" && !(w.Fn != nil && w.Fn.Name() == "init") {
+							isLocalMap = true // (a package-level table filled by the initialiser is not a per-expansion cache)
 						}
 						return !isLocalMap
 					})
@@ -221,6 +221,24 @@ func c15(e *Env) {
 				switch v := mu.Value.(type) {
 				case *ssa.MakeClosure:
 					fn, _ = v.Fn.(*ssa.Function)
+					// a closure made in a loop must capture per-iteration values: under the module's Go version (< 1.22)
+					// the iteration variable of a range loop is one cell shared by all iterations
+					obC := r.Ob("R5", "default-path:closure-captures", "a path function created in a loop over the ports captures per-iteration copies, not the loop's shared iteration variable")
+					bad := ""
+					if l := core.InnermostLoop(v); l != nil {
+						for _, b := range v.Bindings {
+							al, ok := b.(*ssa.Alloc)
+							if !ok || l.Blocks[al.Block()] {
+								continue
+							}
+							for _, ref := range *al.Referrers() {
+								if st, ok := ref.(*ssa.Store); ok && st.Addr == ssa.Value(al) && l.Blocks[st.Block()] {
+									bad = al.Comment
+								}
+							}
+						}
+					}
+					obC.Check(bad == "", gn.Where(n), "bindings are per-iteration values", "the path function captures the loop variable `"+bad+"`, which all iterations share (go.mod selects pre-1.22 loop semantics): every default path function uses the port visited last, so outputs of different ports get the same default name")
 				case *ssa.Function:
 					fn = v
 				case *ssa.Call:
